@@ -798,10 +798,19 @@ class Element(object):
         return self._parent
 
     def _set_parent(self, parent):
+        previous = (self.__dict__.get('_parent'), self.__dict__.get('_traversal_parent'))
         self._parent = parent
         if parent is not None:
-            self.traversal_parent = None
-            self.parent.add(self)
+            self._traversal_parent = None
+            try:
+                parent.add(self)
+            except Exception:
+                # refused by the new parent: still a child of the previous one
+                self._parent, self._traversal_parent = previous
+                raise
+        if previous[0] is not None and previous[0] is not parent and \
+                any(c is self for c in previous[0].children):
+            previous[0].children.remove(self)  # an element has one parent
 
     parent = property(_get_parent, _set_parent,
                       doc="The parent :class:`Element <hl7apy.core.Element>` of this one")
